@@ -186,6 +186,10 @@ func matrixShape(name string) *pipeline.Matrix {
 		return &pipeline.Matrix{Setup: pipeline.MatrixSetup{"": {"a", "c"}}}
 	case "setup_os":
 		return &pipeline.Matrix{Setup: pipeline.MatrixSetup{"os": {"linux"}}}
+	case "skiponly_t", "skiponly_f", "skiponly_s":
+		// no dimensions at all; one adjustment with an empty `with` that only says skip (true / false / a reason): the empty
+		// permutation is skipped or not - the matrix is content
+		return &pipeline.Matrix{Adjustments: pipeline.MatrixAdjustments{{With: pipeline.MatrixAdjustmentWith{}, Skip: map[string]any{"skiponly_t": true, "skiponly_f": false, "skiponly_s": "flaky"}[name]}}}
 	case "setup_os_eadj":
 		return &pipeline.Matrix{Setup: pipeline.MatrixSetup{"os": {"linux"}}, Adjustments: pipeline.MatrixAdjustments{}} // (what `adjustments: []` parses to)
 	case "setup_os_erem":
@@ -753,7 +757,8 @@ func c06Build(nodes []any, path string, rng *mrand.Rand) pipeline.Steps {
 			if len(names) > 0 || rng.Intn(2) == 0 {
 				cs.Env = map[string]string{}
 				for _, k := range names {
-					cs.Env[k] = []string{"step-" + k, "", "step-" + k}[rng.Intn(3)] // an empty value still shadows
+					// an empty value still shadows - and so does the very value the pipeline gives the same name ("pa" for A, "pb" for B)
+					cs.Env[k] = []string{"step-" + k, "", "p" + strings.ToLower(k), "step-" + k}[rng.Intn(4)]
 				}
 				if rng.Intn(2) == 0 {
 					// step-only variables that sort before, between and after the pipeline's names (which are A, B): they shadow nothing
@@ -767,6 +772,9 @@ func c06Build(nodes []any, path string, rng *mrand.Rand) pipeline.Steps {
 				cs.Plugins = pipeline.Plugins{{Source: "docker#v1", Config: map[string]any{"image": "x" + p}}}
 			case 2:
 				cs.Plugins = pipeline.Plugins{} // present but empty: not for the signer to tidy up
+			case 3:
+				// plugins whose config is present but EMPTY (`docker#v1: {}`, `ecr#v2: []`): signing reads them, it does not tidy them up
+				cs.Plugins = pipeline.Plugins{{Source: "docker#v1", Config: map[string]any{}}, {Source: "ecr#v2", Config: []any{}}, {Source: "./local", Config: nil}}
 			}
 			if rng.Intn(5) == 0 {
 				cs.Matrix = &pipeline.Matrix{}
@@ -868,11 +876,15 @@ func runC06(args []string) {
 			for i, c := range pre {
 				stale[i], c.Signature = c.Signature, nil
 			}
+			// (the exact representation is taken FIRST, before any library call - also before the driver's own marshalling)
+			repBefore := repDigest(steps) // nil vs empty, slice capacities ..., signatures set aside
 			before, err := json.Marshal(steps)
 			if err != nil {
 				panic("driver: marshal before: " + err.Error())
 			}
-			repBefore := repDigest(steps) // the exact representation (nil vs empty, slice capacities ...), signatures set aside
+			if repDigest(steps) != repBefore {
+				panic("marshalling the steps (an observer) changed their representation")
+			}
 			for i, c := range pre {
 				c.Signature = stale[i]
 			}
